@@ -23,6 +23,7 @@ fn main() {
         Some("secret") => secret::run(),
         Some("sigv4") => sigv4::one(&args[1..]),
         Some("sigv4-header-value") => sigv4::header_value(&args[1..]),
+        Some("chunked") => sigv4::chunked(&args[1..]),
         Some("sigv2") => sigv4::v2(&args[1..]),
         Some("sigv4-tamper") => sigv4::tamper(),
         Some("sigv4-search") => sigv4::search(),
